@@ -12,22 +12,26 @@ LEVEL_NOTE = ("the model fixes the atomic steps at the resolver's lock acquisiti
 DESIGN_REF = "DESIGN.md §9 C13, Appendix G, §12.C13"
 COQ_TARGETS = ["Properties/C13", "Pins/C13"]
 THEOREMS = [("PdfV.Properties.C13", n) for n in
-            ["C13_per_thread_chain", "C13_completion", "C13_terminates", "C13_sequential_answer", "C13_full_refuted",
-             "C13_refuted_shared_chain", "C13_refuted_pop_assert", "C13_refuted_abort", "C13_cyclic_deadlock", "C13_chain_table"]]
+            ["C13_per_thread_chain", "C13_completion", "C13_terminates", "C13_sequential_answer", "C13_answers_alone", "C13_full_refuted",
+             "C13_refuted_shared_chain", "C13_refuted_pop_assert", "C13_refuted_abort", "C13_cyclic_deadlock", "C13_chain_table",
+             "C13_serving_cached_errors_refuted"]]
 ANCHORS = ["file.rs:StorageResolver"]
-MODES = ["schedule"]
+MODES = ["schedule", "tschedule"]
 TRUSTED_BASE = ["coqc 8.16.1 kernel (vm_compute for witnesses and the table lemma; no native_compute)",
                 "gen/extract_cache.py (reads whether StorageResolver.chain is keyed by ThreadId)",
                 "Extraction + ExtrOcamlBasic, ocamlfind ocamlopt 4.13.1, coq/driver/main.ml",
                 "pdf/src/verif_hooks.rs + the four cfg-guarded yield points in StorageResolver::get (hook: commit)",
-                "harness pdfh modes/cache.rs: turnstile scheduler, TurnCache (instrumented implementation of the public Cache trait mirroring globalcache-0.2.4 SyncCache::get), Node<0> test type",
+                "harness pdfh modes/cache.rs: turnstile scheduler, TurnCache (instrumented implementation of the public Cache trait mirroring globalcache-0.2.4 SyncCache::get), Node<0..2> test types",
                 "tools/vplib, tools/oracle/cachedocs.py + pdfwriter.py"]
 ASSUMPTIONS = ["atomicity: the code between two yield points of one thread is one step (holds under the turnstile scheduler; for free-running threads it is the claim that the two mutexes make these sections atomic)",
                "the instrumented cache follows SyncCache::get's protocol (read from globalcache-0.2.4/src/sync.rs); the real SyncCache is exercised only by the stress mode",
                "C13_per_thread_chain premise `acyclic1`: eager nested loads follow a rank; for cyclic documents the cache protocol deadlocks (C13-b)",
-               "readers use one object type per reference (no type confusion inside the concurrent part; type confusion is C12)"]
+               "the readers' object types are the harness types Node<0..2> (library types are exercised sequentially by C12)"]
 RULE = ("documents: Node documents (nested eager loads, failing loads, free references; acyclic and cyclic); 2 threads x 1 call: every interleaving of the "
-        "model's steps (exhaustive), 2 x 2 and 3 x k: sampled schedules; each under {shared resolver, one resolver each} x {cache on, off}; expected answers = "
+        "model's steps (exhaustive), 2 x 2 and 3 x k: sampled schedules; split documents (for every error kind - missing object, wrong type, parse error, "
+        "recursion, ... - a reference that fails with it as one type and loads as another): the same reference loaded as a failing and as a succeeding type "
+        "by two threads (interleavings of the model's steps, exhaustive when few) and within one thread (sequential histories), directly and through parents "
+        "that load it as several types; each under {shared resolver, one resolver each} x {cache on, off}; expected answers = "
         "each call alone (python oracle from the file's construction), no panic, no poison, no deadlock; plus unscheduled real-thread runs with the real "
         "SyncCache; non-trivial = at least two threads with a call each; distinct by (cfg, file, programs, schedule)")
 CASE_TIMEOUT = 30.0
@@ -84,14 +88,71 @@ def interleavings(counts):
     return go(list(counts))
 
 
-def mk_case(nd, data, progs, sched, shared, cache, tags):
+def mk_case(nd, data, progs, sched, shared, cache, tags, typed=False):
+    """progs: per thread a list of references (each loaded as Node<0>) or, typed, of (type, reference) pairs"""
     cf = ("1" if shared else "0") + PER_THREAD + ("1" if cache else "0")
-    pf = "\n".join(" ".join(str(r) for r in p) for p in progs).encode()
+    if typed:
+        pf = "\n".join(" ".join("%d %d" % c for c in p) for p in progs).encode()
+        expect = ok(*[" ".join("%s%d" % nd.alone_get(ty, r) for (ty, r) in p).encode() for p in progs])
+    else:
+        pf = "\n".join(" ".join(str(r) for r in p) for p in progs).encode()
+        expect = ok(*[" ".join("%s%d" % nd.alone_get(0, r) for r in p).encode() for p in progs])
     sf = " ".join(str(t) for t in sched).encode()
-    expect = ok(*[" ".join("%s%d" % nd.alone_get(0, r) for r in p).encode() for p in progs])
     tags = list(tags) + ["shared" if shared else "separate", "cache" if cache else "nocache",
                          "cyclic" if not nd.acyclic() else "acyclic", "threads:%d" % len(progs)]
-    return Case("schedule", [cf.encode(), data, pf, sf], mfields=[cf.encode(), nd.rows(), pf, sf], expect=expect, tags=tags)
+    return Case("tschedule" if typed else "schedule", [cf.encode(), data, pf, sf], mfields=[cf.encode(), nd.rows(), pf, sf],
+                expect=expect, tags=tags)
+
+
+def typed_cases(rng, nd, data, quick):
+    """the same reference loaded as a type that fails and as a type that succeeds, by two threads and within one"""
+    budget = 40 if quick else 200
+    refs = [r for r in nd.all_ids() if nd.type_dependent(r)]
+    parents = [r for r, n in nd.nodes.items() if len(set(t for (t, _) in n["deps"])) > 1]
+    for r in refs:
+        bad = [ty for ty in range(3) if nd.alone_get(ty, r)[0] == "e"]
+        good = [ty for ty in range(3) if nd.alone_get(ty, r)[0] == "o"]
+        pairs = [(b, g) for b in bad for g in good]
+        if quick:
+            pairs = [rng.choice(pairs)]
+        for (b, g) in pairs:
+            for shared in (True, False):
+                for cache in (True, False):
+                    k = budget if cache else max(4, budget // 8)
+                    # 2 threads x 1 call
+                    n = steps_bound(nd, r, cache)
+                    allsch = list(interleavings([n, n])) if n <= 5 else None
+                    if allsch is not None and len(allsch) <= k * 8:
+                        tag = "2x1-exhaustive"
+                    else:
+                        allsch = [[rng.randrange(2) for _ in range(2 * min(n, 16))] for _ in range(k)]
+                        tag = "2x1-sampled"
+                    if len(allsch) > k and quick:
+                        allsch, tag = rng.sample(allsch, k), "2x1-sampled"
+                    for s in allsch:
+                        yield mk_case(nd, data, [[(b, r)], [(g, r)]], s, shared, cache, [tag, "typed"], typed=True)
+                    # scripted: A (failing type) alone then B; B then A; B arrives while A computes (waits on InProcess,
+                    # receives A's error); A arrives while B computes (receives B's value, of another type)
+                    for s in ([0] * 40 + [1] * 40, [1] * 40 + [0] * 40, [0, 0, 1, 1, 1] + [0] * 40 + [1] * 40,
+                              [1, 1, 0, 0, 0] + [1] * 40 + [0] * 40, [0, 0, 0, 1, 1, 1, 0, 1, 0, 1, 0, 1, 0, 1]):
+                        yield mk_case(nd, data, [[(b, r)], [(g, r)]], s, shared, cache, ["scripted", "typed"], typed=True)
+                    # sequential histories inside the threads, and a third thread
+                    for _ in range(max(2, k // 4)):
+                        progs = [[(b, r), (g, r), (b, r)], [(g, r), (b, r)]]
+                        if rng.random() < 0.3:
+                            progs.append([(rng.choice([b, g]), r)])
+                        rng.shuffle(progs)
+                        s = [rng.randrange(len(progs)) for _ in range(rng.randint(0, 40))]
+                        yield mk_case(nd, data, progs, s, shared, cache, ["sampled", "typed"], typed=True)
+    ids = sorted(nd.nodes)
+    for _ in range(30 if quick else 600):
+        nt = rng.choice([2, 2, 3])
+        progs = []
+        for _ in range(nt):
+            progs.append([(rng.randrange(3), rng.choice(refs + parents if rng.random() < 0.8 else ids))
+                          for _ in range(rng.randint(1, 3))])
+        s = [rng.randrange(nt) for _ in range(rng.randint(0, 50))]
+        yield mk_case(nd, data, progs, s, rng.random() < 0.6, rng.random() < 0.85, ["sampled", "typed"], typed=True)
 
 
 def generate(rng, tier):
@@ -99,8 +160,21 @@ def generate(rng, tier):
     docs = []
     for di in range(4 if quick else 16):
         nd = ring_doc(rng, 2 + di % 2) if di % 4 == 3 else rand_doc(rng, rng.randint(2, 5))
-        docs.append((nd, D.build_file(nd.objects(), free=nd.free)))
+        docs.append((nd, nd.build()))
     budget_exh = 200 if quick else 4000
+    # typed loads: the cache is keyed by the reference only
+    split = [D.split_doc(rng, selfloop=i % 2 == 1) for i in range(2 if quick else 6)]
+    for nd in split:
+        data = nd.build()
+        for c in typed_cases(rng, nd, data, quick):
+            yield c
+        for _ in range(3 if quick else 20):
+            refs = [r for r in nd.all_ids() if nd.type_dependent(r)]
+            progs = [[(rng.randrange(3), rng.choice(refs)) for _ in range(rng.randint(1, 6))] for _ in range(rng.choice([2, 3, 4]))]
+            pf = "\n".join(" ".join("%d %d" % c for c in p) for p in progs).encode()
+            expect = ok(*[" ".join("%s%d" % nd.alone_get(ty, r) for (ty, r) in p).encode() for p in progs])
+            yield Case("tstress", [data, pf, b"20" if quick else b"200"], expect=expect, model=False,
+                       tags=["stress", "typed", "threads:%d" % len(progs)])
     for nd, data in docs:
         ids = sorted(nd.nodes)
         for shared in (True, False):
@@ -138,7 +212,7 @@ def generate(rng, tier):
 
 
 def nontrivial(c):
-    f = c.fields[2] if c.mode == "schedule" else c.fields[1]
+    f = c.fields[2] if c.mode in ("schedule", "tschedule") else c.fields[1]
     return f.count(b"\n") >= 1
 
 
@@ -151,7 +225,7 @@ def always(case, r):
 def classify(case, impl, model):
     # C13-b: eager reference cycles + the compute-once cache: threads wait for each other's InProcess marker
     # (deadlock), and entries computed under a non-empty guard stack are shared (as C12-c)
-    if "cyclic" in case.tags and "cache" in case.tags:
+    if "cyclic" in case.tags and "cache" in case.tags and "typed" not in case.tags:
         return "C13-b"
     return None
 
